@@ -16,6 +16,11 @@ pub enum G {
     Point3,
     Rect,
     Mix,
+    /// `--x X --y Y`: the group starts with a valued item (two command-line items wide)
+    ArgPair,
+    /// `--rect (--w W | --s S) --color C` beside a top-level `--s SCALE` declared after the group:
+    /// a member that is a choice, and a name shared with the surrounding level
+    AltRect,
 }
 #[derive(Clone, Copy, Debug, PartialEq, Eq, Serialize, Deserialize)]
 pub enum W {
@@ -54,6 +59,8 @@ fn group(g: G) -> P {
         G::Point3 => P::Adj(vec![point, pos("X"), pos("Y"), pos("Z")]),
         G::Rect => P::Adj(vec![point, arg("w"), arg("h"), P::Switch(Names::long("o"))]),
         G::Mix => P::Adj(vec![point, arg("w"), pos("X")]),
+        G::ArgPair => P::Adj(vec![arg("x"), arg("y")]),
+        G::AltRect => P::Adj(vec![P::ReqFlag(Names::long("rect")), P::Alt(vec![P::Map(arg("w").bx(), "W".into()), P::Map(arg("s").bx(), "S".into())]), arg("color")]),
     }
 }
 
@@ -70,6 +77,9 @@ pub fn to_opts(d: &Def) -> Opts {
         fields.push(v.clone());
     }
     fields.push(gw);
+    if d.g == G::AltRect {
+        fields.push(P::arg(Names::long("s"), Ty::Os).opt());
+    }
     if d.v == V::After {
         fields.push(v);
     }
@@ -86,6 +96,8 @@ pub fn alphabet_for(g: G) -> Vec<Tok> {
         G::Point1 | G::Point2 | G::Point3 => toks(&["--point", "1", "2", "-v", "--zz", "--"]),
         G::Rect => toks(&["--point", "--w", "--w=1", "--h", "--o", "2", "-v", "--"]),
         G::Mix => toks(&["--point", "--w", "--w=1", "2", "3", "-v", "--"]),
+        G::ArgPair => toks(&["--x", "--x=1", "--y", "--y=2", "3", "-v", "--"]),
+        G::AltRect => toks(&["--rect", "--w=1", "--s=2", "--s", "--color=r", "3", "-v"]),
     }
 }
 
@@ -98,6 +110,7 @@ pub fn model(d: &Def, argv: &[Tok]) -> Option<Val> {
     let mut v = 0;
     let mut blocks: Vec<Val> = vec![];
     let mut words: Vec<Val> = vec![];
+    let mut scale: Vec<Val> = vec![];
     let mut i = 0;
     let mut dd = false;
     let s = |t: &Tok| Val::S(t.clone());
@@ -120,6 +133,84 @@ pub fn model(d: &Def, argv: &[Tok]) -> Option<Val> {
             v += 1;
             i += 1;
             continue;
+        }
+        if d.g == G::ArgPair && (t.0 == b"--x" || t.0.starts_with(b"--x=")) {
+            let plain = |i: usize| i < argv.len() && argv[i].0 != b"--" && is_word(&argv[i]);
+            let x = if t.0 == b"--x" {
+                if !plain(i + 1) {
+                    return None;
+                }
+                i += 2;
+                s(&argv[i - 1])
+            } else {
+                i += 1;
+                Val::S(Tok(t.0[4..].to_vec()))
+            };
+            // the second member follows at once
+            let y = match argv.get(i) {
+                Some(n) if n.0 == b"--y" => {
+                    if !plain(i + 1) {
+                        return None;
+                    }
+                    i += 2;
+                    s(&argv[i - 1])
+                }
+                Some(n) if n.0.starts_with(b"--y=") => {
+                    i += 1;
+                    Val::S(Tok(n.0[4..].to_vec()))
+                }
+                _ => return None,
+            };
+            blocks.push(Val::T(vec![x, y]));
+            continue;
+        }
+        if d.g == G::AltRect {
+            let plain = |i: usize| i < argv.len() && argv[i].0 != b"--" && is_word(&argv[i]);
+            // an argument occurrence at position i: (name, value, width)
+            let occ = |i: usize| -> Option<(&'static str, Val, usize)> {
+                let t = argv.get(i)?;
+                for n in ["w", "s", "color"] {
+                    if t.0 == format!("--{}", n).as_bytes() {
+                        return if plain(i + 1) { Some((n, s(&argv[i + 1]), 2)) } else { None };
+                    }
+                    if let Some(v) = t.0.strip_prefix(format!("--{}=", n).as_bytes()) {
+                        return Some((n, Val::S(Tok(v.to_vec())), 1));
+                    }
+                }
+                None
+            };
+            if t.0 == b"--rect" {
+                i += 1;
+                let (mut dim, mut color) = (None, None);
+                while let Some((n, v, w)) = occ(i) {
+                    if n == "color" && color.is_none() {
+                        color = Some(v);
+                    } else if n != "color" && dim.is_none() {
+                        dim = Some(Val::tag(if n == "w" { "W" } else { "S" }, v));
+                    } else {
+                        break;
+                    }
+                    i += w;
+                }
+                match (dim, color) {
+                    (Some(dv), Some(c)) => blocks.push(Val::T(vec![Val::B(true), dv, c])),
+                    _ => return None,
+                }
+                continue;
+            }
+            // outside a block only the top-level --s is declared
+            match occ(i) {
+                Some(("s", v, w)) => {
+                    scale.push(v);
+                    i += w;
+                    continue;
+                }
+                Some(_) => return None,
+                None => {}
+            }
+            if t.0 == b"--s" || t.0 == b"--w" || t.0 == b"--color" {
+                return None; // a name without its value
+            }
         }
         if t.0 == b"--point" {
             i += 1;
@@ -186,6 +277,7 @@ pub fn model(d: &Def, argv: &[Tok]) -> Option<Val> {
                         _ => return None,
                     }
                 }
+                G::ArgPair | G::AltRect => return None, // `--point` is not declared
                 G::Mix => {
                     let (mut w, mut x) = (None, None);
                     loop {
@@ -253,6 +345,13 @@ pub fn model(d: &Def, argv: &[Tok]) -> Option<Val> {
         fields.push(Val::B(v == 1));
     }
     fields.push(gw);
+    if d.g == G::AltRect {
+        match scale.len() {
+            0 => fields.push(Val::No),
+            1 => fields.push(Val::some(scale.pop().unwrap())),
+            _ => return None,
+        }
+    }
     if d.v == V::After {
         fields.push(Val::B(v == 1));
     }
@@ -277,6 +376,8 @@ pub fn defs(len: usize, with_p3: bool) -> Vec<Def> {
     let mut gs = vec![G::Point1, G::Point2, G::Rect, G::Mix];
     if with_p3 {
         gs.push(G::Point3);
+        gs.push(G::ArgPair);
+        gs.push(G::AltRect);
     }
     for g in gs {
         for w in [W::Bare, W::Opt, W::Many] {
@@ -481,7 +582,7 @@ fn judge(d: &Def, unit: &Value, p: &bpaf::OptionParser<Val>, argv: &[Tok], ctx: 
         ctx.s.validated += 1;
         if m.is_some() {
             ctx.count("accepted");
-            if argv.iter().any(|t| t.0 == b"--point") {
+            if argv.iter().any(|t| t.0 == b"--point" || t.0.starts_with(b"--x")) {
                 ctx.s.nontrivial += 1;
             }
             if ctx.wants_sample() && argv.len() >= 4 {
@@ -489,7 +590,7 @@ fn judge(d: &Def, unit: &Value, p: &bpaf::OptionParser<Val>, argv: &[Tok], ctx: 
             }
         } else {
             ctx.count("rejected");
-            if argv.iter().any(|t| t.0 == b"--point") {
+            if argv.iter().any(|t| t.0 == b"--point" || t.0.starts_with(b"--x")) {
                 ctx.s.nontrivial += 1;
             }
         }
@@ -598,7 +699,7 @@ impl Check for C19 {
         }
     }
     fn rule(&self) -> String {
-        "definitions = {--point X | X Y | X Y Z, --point --w W --h H [--o], --point --w W X} x {bare, optional, many} x {no, optional, repeated trailing positional} x {neighbouring switch absent, declared before, declared after}; plus blocks inside blocks: an adjacent command (bare / optional / many) whose sub-parser holds a repeated adjacent group --point X [Y] (and optionally its own switch) beside a top-level switch, all vectors of length <= 6-7 over {cmd, --point, 1, 2, -v, -x}; every vector of the token tree over 6-8 tokens (leading flag, members, inline member, words, foreign -v / --zz, `--`); each node judged by the block scanner (a block = leading flag + contiguous members; one value per block; everything else belongs to the surrounding level); state = (definition, vector), transition = append token; non-trivial = judged vector containing the group's leading flag".into()
+        "definitions = {--point X | X Y | X Y Z, --point --w W --h H [--o], --point --w W X, --x X --y Y (a group starting with a valued item)} x {bare, optional, many} x {no, optional, repeated trailing positional} x {neighbouring switch absent, declared before, declared after}; plus blocks inside blocks: an adjacent command (bare / optional / many) whose sub-parser holds a repeated adjacent group --point X [Y] (and optionally its own switch) beside a top-level switch, all vectors of length <= 6-7 over {cmd, --point, 1, 2, -v, -x}; every vector of the token tree over 6-8 tokens (leading flag, members, inline member, words, foreign -v / --zz, `--`); each node judged by the block scanner (a block = leading flag + contiguous members; one value per block; everything else belongs to the surrounding level); state = (definition, vector), transition = append token; non-trivial = judged vector containing the group's leading flag".into()
     }
     fn bounds(&self, tier: Tier) -> Value {
         json!({"vector_length": tier.pick("6 (5 for the 4-member option-struct, 7 nested)", "7 (8 for --point X Y Z and nested)"), "blocks": "0..3 per line within that length"})
